@@ -23,9 +23,9 @@ NA = [
 CHECKS = {
     "C03": dict(
         category="exploration",
-        text="Hostile-channel facet of C03: corpus files (well- and ill-formed, all encodings) and synthetic documents containing every escape, directive and scalar form are pushed through a simulated channel that injects 0-5 seeded content faults (truncation, bit flip, overwrite from an indicator alphabet, dropped / duplicated / stuttered / swapped ranges, garbage, BOM insertion and removal, odd-length UTF-16, encoding confusion, look-alike transcoding of digits/blanks/letters/indicators, lone surrogates on the text channel, nesting bursts <= 150) at positions biased into tokens with in-flight scanner state, delivered in memory and through SimReader with seeded read-size schedules, x scan / parse / compose / compose_all x both back-ends. Oracle: result or YAMLError, termination (watchdog + read budget + worker liveness), marks and ReaderError positions inside the input. The fault-free configuration runs separately (about 10% of runs). Inputs that are not reachable as a corrupted corpus document are not sampled and not claimed.",
+        text="Hostile-channel facet of C03: corpus files (well- and ill-formed, all encodings) and synthetic documents containing every escape, directive and scalar form are pushed through a simulated channel that injects 0-5 seeded content faults (truncation, bit flip, overwrite from an indicator alphabet, dropped / duplicated / stuttered / swapped ranges, garbage, BOM insertion and removal, odd-length UTF-16, encoding confusion, look-alike transcoding of digits/blanks/letters/indicators, numeric-field confusion (a digit of an escape / URI escape / version / indentation indicator replaced by a sign, blank, underscore, radix letter or non-ASCII digit), lone surrogates on the text channel, nesting bursts <= 150, and - in 4% of the runs - pure indicator-rich noise) at positions biased into tokens with in-flight scanner state, delivered in memory and through SimReader with seeded read-size schedules, x scan / parse / compose / compose_all x both back-ends. Oracle: result or YAMLError, termination (20 s watchdog per library call, read budget, worker liveness; a suspected hang is re-executed in an isolated process with the limit x10 before it is reported), marks and ReaderError positions inside the input. Inputs whose nesting estimate exceeds 300 are counted as outside the property's quantifier and not executed. The fault-free configuration runs separately (about 10% of runs). Inputs that are not reachable as a corrupted corpus document are not sampled and not claimed.",
         design_ref="DESIGN.md section 3, C03",
-        note="Trusted: the fault applicator, SimReader, the loose mark bounds. Known finding K3 (LibYAML binding, str with a lone surrogate) is matched narrowly. Two genuine defects found by this check were repaired by fix: commits (known_findings.txt). RecursionError from nesting bursts is out of the property's scope and only counted.",
+        note="Trusted: the fault applicator, SimReader, the loose mark bounds. Known findings K3 (LibYAML binding, str with a lone surrogate) and K4 (LibYAML accepts URI escapes that are not valid UTF-8, the binding lets UnicodeDecodeError escape) are matched narrowly. Two genuine defects found by this check were repaired by fix: commits (known_findings.txt). RecursionError from nesting bursts is out of the property's scope and only counted.",
         technique="deterministic simulation of a faulty input channel: seeded content faults + read-size schedules, class-membership and termination oracle",
         quick_timeout=900, thorough_timeout=10800),
     "C07": dict(
@@ -44,28 +44,28 @@ CHECKS = {
         quick_timeout=900, thorough_timeout=10800),
     "C11": dict(
         category="exploration",
-        text="Histories of API calls inside one process, decided by a seeded scheduler over a pool of ~40 documents (valid, invalid at every stage, %YAML / %TAG directives, handles used without declaration, anchors defined / used without definition, recursive, merge keys), 17 values (plain, shared, recursive, custom class, unrepresentable) and well- and ill-formed event lists, through all shipped loader / dumper classes of both back-ends. Step kinds: complete call; call whose stream raises at a chosen read / write index; call interrupted by an exception raised from a trace function at a chosen line of lib/yaml (what a signal handler does); generator calls started, advanced, closed, thrown into or dropped in a scheduler-chosen interleaving; dump_all whose documents iterable makes another call between documents; a constructor that makes a re-entrant call. Oracle: every observation equals the isolated reference of the same operation (executed alone in a child forked from a pristine process), and the digest of all module- and class-level state of the yaml package after every step equals the digest before the history. Stream clause: load_all / compose_all / parse / scan of concatenated explicit documents gives per document what the document gives alone (marks shifted), an invalid document ends the stream with its isolated error after exactly the earlier items; dump_all([v1..vn]) gives per document the events (anchors, tags, directives) of dump_all([vi]). Seeded exploration is the right level: leaks show only for particular orders of particular operations, and the space of histories is unbounded.",
+        text="Histories of API calls inside one process, decided by a seeded scheduler over a pool of ~40 documents (valid, invalid at every stage, %YAML / %TAG directives, handles used without declaration, anchors defined / used without definition, recursive, merge keys), 17 values (plain, shared, recursive, custom class, unrepresentable) and well- and ill-formed event lists, through all shipped loader / dumper classes of both back-ends. Step kinds: complete call; call whose stream raises at a chosen read / write index; call interrupted by an exception raised from a trace function at a chosen line of lib/yaml (what a signal handler does); generator calls started, advanced, closed, thrown into or dropped in a scheduler-chosen interleaving; dump_all whose documents iterable makes another call between documents; a constructor that makes a re-entrant call; sessions in which further steps of the history (calls, generator steps) run while a dump_all or a load is in progress; line interrupts inside generator steps. Oracle: every observation equals the isolated reference of the same operation (executed alone in a child forked from a pristine process), and the digest of all module- and class-level state of the yaml package after every step equals the digest before the history. Stream clause: load_all / compose_all / parse / scan of concatenated explicit documents gives per document what the document gives alone (marks shifted), an invalid document ends the stream with its isolated error after exactly the earlier items; dump_all([v1..vn]) gives per document the events (anchors, tags, directives) of dump_all([vi]), also when the documents iterable yields one object that it mutates between yields; emit / serialize_all of the events / nodes of d1..dn give per document the events of the same call on di alone. Seeded exploration is the right level: leaks show only for particular orders of particular operations, and the space of histories is unbounded.",
         design_ref="DESIGN.md section 3, C11",
         note="Trusted: fork() from a process that imported yaml and made no call as the pristine world, the canonicaliser and global-state digest (sim/observe.py), sys.settrace line events as interruption points (Python frames only: LibYAML itself cannot be interrupted). The interrupted call itself is not compared, only everything after it. Thread interleavings are not simulated (no thread-safety contract; the property speaks of preceding calls).",
         technique="deterministic simulation of call histories: seeded scheduler over complete / stream-faulted / line-interrupted / generator-interleaved / re-entrant calls, isolated-fork reference results and global-state digest as oracles",
         quick_timeout=900, thorough_timeout=10800),
     "C16": dict(
         category="exploration",
-        text="The nondeterminism C16 names - hash randomisation, process identity (object addresses) and insertion order - is put under the simulator's control: every seeded value recipe (C02 universe; keys of one mapping / set from one mutually comparable family; shared and recursive containers; sets of strings whose iteration order really varies) is built and dumped in 3-4 persistent worker interpreters that differ only in PYTHONHASHSEED (8 values, two derived from VERIF_SEED) and in a seeded amount of junk allocation, under 1-3 insertion permutations, with seeded option sets and SafeDumper / CSafeDumper / Dumper / CDumper. Checked: text byte-identical across interpreters; with sort_keys also across permutations; without sort_keys a loader sees insertion order; dump(load(t)) identical across interpreters and equal to t whenever the round trip is exact (guarded fixed point, anchors included); dump(load(t), sort_keys=False) == t (document order kept by load). Sampling is the right level: these are relations over pairs of runs on an unbounded value space; what matters is that each run really differs in the controlled dimension, which the reach probe (set iteration order differed between interpreters) measures.",
+        text="The nondeterminism C16 names - hash randomisation, process identity (object addresses) and insertion order - is put under the simulator's control: every seeded value recipe (C02 universe; keys of one mapping / set from one mutually comparable family; shared and recursive containers; sets of strings whose iteration order really varies) is built and dumped in 3-4 persistent worker interpreters that differ only in PYTHONHASHSEED (8 values, two derived from VERIF_SEED) and in a seeded amount of junk allocation, under 1-3 insertion permutations, with seeded option sets and SafeDumper / CSafeDumper / Dumper / CDumper. Checked: text byte-identical across interpreters; with sort_keys also across permutations; without sort_keys a loader sees insertion order; dump(load(t)) identical across interpreters and equal to t whenever the round trip is exact (guarded fixed point, anchors included); dump(load(t), sort_keys=False) == t (document order kept by load); inside dump_all([w, x, x']) the events of x and of an unshared second build x' equal those of dump(x) (anchor names are a function of the document alone). Recipes deliberately contain equal-but-distinct leaves and the same leaf object several times. Sampling is the right level: these are relations over pairs of runs on an unbounded value space; what matters is that each run really differs in the controlled dimension, which the reach probe (set iteration order differed between interpreters) measures.",
         design_ref="DESIGN.md section 3, C16",
         note="Trusted: CPython's PYTHONHASHSEED mechanism, the recipe builder (same value under every hash seed), the type-strict order-insensitive canonical form used as the exact-round-trip guard. The unguarded fixed point for values whose round trip is inexact (e.g. U+0085 under allow_unicode) is C02 territory and is counted, not decided. Clauses about load order are pure functions of the input and are sampled, not simulated.",
         technique="deterministic simulation of hash randomisation, process identity and insertion order: same seeded value in several PYTHONHASHSEED worker interpreters x insertion permutations, byte-equality oracle",
         quick_timeout=900, thorough_timeout=10800),
     "C18": dict(
         category="exploration",
-        text="Seeded multi-document streams (documents from empty to several refill blocks, comment/blank gaps, '...' and directive boundaries, several blocks of tail) delivered as text / UTF-8 / UTF-16 through SimReader with seeded read-size schedules to scan / parse / compose_all / load_all on both back-ends. Three oracles: (bound) at each document delivery, units handed out by the stream minus the end of the document's terminating token <= 2 refill blocks (4096 units pure Python, 16384 LibYAML) with no extra tolerance; (order) k good documents + one malformed document (20 malformation kinds at scanner / parser / directive / composer / constructor / reader level): exactly the k documents are delivered, then the error; (release) with the cyclic GC disabled a weak reference to the stream dies as soon as the generator is closed, thrown into, dropped or exhausted, at seeded abandonment points, for all ten shipped loader classes. Sampling is the right level: the bound is a worst-case statement over unboundedly many (stream, schedule) pairs; the measured maxima (8187 / 16381) are reported so that the margin is visible.",
+        text="Seeded multi-document streams (documents from empty to several refill blocks, comment/blank gaps, '...' and directive boundaries, several blocks of tail) delivered as text / UTF-8 / UTF-16 through SimReader with seeded read-size schedules to scan / parse / compose_all / load_all on both back-ends. Three oracles: (bound) at each document delivery, units handed out by the stream minus the end of the document's terminating token <= 2 refill blocks (4096 units pure Python, 16384 LibYAML) with no extra tolerance; (order) k good documents + one malformed document (20 malformation kinds at scanner / parser / directive / composer / constructor / reader level): exactly the k documents are delivered, then the error; (release) with the cyclic GC disabled a weak reference to the stream dies as soon as the generator is closed, thrown into, dropped, exhausted, or ended by a YAMLError or by an exception of the stream itself (raised at a seeded read index), at seeded abandonment points including 'never advanced', for all ten shipped loader classes. Document bodies include single unbroken tokens of several refill blocks. Sampling is the right level: the bound is a worst-case statement over unboundedly many (stream, schedule) pairs; the measured maxima (8187 / 16381) are reported so that the margin is visible.",
         design_ref="DESIGN.md section 3, C18",
         note="Trusted: SimReader's account of units handed out, a reference scan/parse of the in-memory text for document ends, CPython reference counting for the release oracle. K1 (reader-level defects pre-empt earlier documents of the same refill block) is accepted as a known finding only with the ReaderError at the expected offset.",
         technique="deterministic simulation of the input channel and of the generator's consumer: seeded read schedules, consumption accounting at each yield, abandonment points",
         quick_timeout=900, thorough_timeout=10800),
     "C19": dict(
         category="fault_enumeration",
-        text="For each seeded case (values / documents x API x loader or dumper class incl. both back-ends x stream kind x callback set) the fault-free run records the invocation sequence of read / write / flush / constructor / representer / documents-iterator calls, and then EVERY index of that sequence is used as the failure point in a fresh execution (exhaustive per case; capped at 1000 points with first/last/flush-adjacent/seeded sample for the rare larger case), with the exception kind rotating through 21 kinds including every type the library catches internally. Checked per point: identity of the exception object, unchanged type/args/cause/notes, written or yielded prefix, fault-free follow-up run and reference call, unchanged global state; plus seeded sequences of 2-3 consecutive faulted calls. Exhaustive in the crash-point dimension of each case, sampled in the case dimension.",
+        text="For each seeded case (values / documents x API x loader or dumper class incl. both back-ends x stream kind x callback set) the fault-free run records the invocation sequence of read / write / flush / constructor / representer / documents-iterator calls, and then EVERY index of that sequence is used as the failure point in a fresh execution (exhaustive per case; capped at 1000 points with first/last/flush-adjacent/seeded sample for the rare larger case), with the exception kind rotating through 21 kinds including every type the library catches internally. Checked per point: identity of the exception object, unchanged type/args/cause/notes, written or yielded prefix, fault-free follow-up run and reference call, unchanged global state; at every other stream fault point the fault is sticky (the stream keeps failing on every later call, as a broken pipe does) and the first injected instance must still be what reaches the caller; plus seeded sequences of 2-3 consecutive faulted calls. Exhaustive in the crash-point dimension of each case, sampled in the case dimension.",
         design_ref="DESIGN.md section 3, C19",
         note="Trusted: SimReader/SimWriter, the harness callbacks, the canonicaliser and the global-state digest (sim/observe.py). Only Python-visible seams can fail: allocation failures inside LibYAML have no seam and are not injected. StopIteration/GeneratorExit are not injected (PEP 479).",
         technique="fault injection at every index of the recorded seam-invocation sequence (crash-point enumeration) in a deterministic simulation",
